@@ -87,10 +87,13 @@ def junk(draw, enc):
         return [kind, ('ab\t' + MARK + 'tab').encode(enc)]
     if kind == 'sep':
         sep = draw(st.sampled_from(SEPARATORS))
+        # the text in front of the separator: short, or long enough to cross the read-ahead / buffer sizes of the line reader
+        head = draw(st.sampled_from(['ab', 'ab', 'ab', 'a' * 71, 'a' * 72, 'a' * 254, 'a' * 255, 'a' * 256, 'b' * 300, 'c' * 1023, 'c' * 1024,
+                                     'd' * 4096, 'e' * 8191, 'e' * 8192, 'f' * 70000]))
         try:
-            return [kind, ('ab' + sep + MARK + 'cd').encode(enc)]
+            return [kind, (head + sep + MARK + 'cd').encode(enc)]
         except UnicodeEncodeError:
-            return [kind, ('ab\x1c' + MARK + 'cd').encode(enc)]
+            return [kind, (head + '\x1c' + MARK + 'cd').encode(enc)]
     if kind == 'undecodable':
         bad = {'utf-8': b'\xff\xfe', 'ascii': b'\xe9', 'cp1251': b'\x98', 'cp1252': b'\x81', 'latin-1': b'\x1f'}[enc]
         return [kind, b'ab' + bad + (MARK + 'xy').encode('ascii')]
